@@ -207,6 +207,10 @@ public:
 				if (roundUp) ++rawbb;
 				_block = rawbb;
 			}
+			else {
+				_block = a.bits(); // no fraction bits to round off, modulo arithmetic lops off the high order integer bits
+				if constexpr (src_rbits < rbits) _block <<= rbits - src_rbits;
+			}
 		}
 		return *this;
 	}
